@@ -94,6 +94,24 @@ func (p c07) RunBatch(ctx *core.Ctx, batch int) {
 				p.checkTree(ctx, t.Clone(), ctx.Rand("relations"))
 			}
 		}
+		// a value whose escaped spelling puts every special character at its start, in its middle
+		// and at its end (x\: looks like a field's colon to a careless look-behind), on either side
+		// of the gap and next to every kind of neighbour
+		for _, sp := range []string{":", "(", ")", "[", "]", "{", "}", "+", "-", "~", "^", "=", "<", ">", "\"", "'", "/", "*", "?", "\\", " ", "!", ",", ";", "&", "|"} {
+			for _, w := range []string{"x" + sp, sp + "x", "x" + sp + "y", sp} {
+				if !qt.EscapedOK(w) {
+					continue
+				}
+				v := qt.Escaped(w)
+				for _, leaf := range []*qt.Node{qt.F("a", v), qt.T(v), qt.Range("a", qt.Word("b"), v, true)} {
+					for _, other := range []*qt.Node{qt.F("c", qt.Word("d")), qt.Not(qt.T(qt.Phrase("p q")))} {
+						p.checkTree(ctx, qt.And(leaf.Clone(), other.Clone()), ctx.Rand("edges"))
+						p.checkTree(ctx, qt.And(qt.And(other.Clone(), leaf.Clone()), qt.F("e", qt.Word("f"))), ctx.Rand("edges"))
+						ctx.Count("escaped_edge_trees", 2)
+					}
+				}
+			}
+		}
 		for _, pair := range c07Named {
 			pair := pair
 			ctx.Case(pair[0], func() { c07Compare(ctx, "named", pair[0], pair[1], 1) })
